@@ -23,11 +23,19 @@ def tla(v):
     raise TypeError(v)
 
 
-def cfg_text(consts, invariants=(), properties=(), spec="Spec", constraint=None):
-    c = dict(BASE)
+UBASE = dict(
+    Tasks=["t1", "t2"], MaxSize=2, Preload=0, NObjs=3, Budget=4, GetModes=["try", "bl"], HasRuntime=True,
+    AllowClose=False, AllowTake=True, AllowRemove=True, AllowAdd=True, AllowCancel=True, AllowDropPool=False,
+)
+USTRUCT = ["TypeOK"]
+
+
+def cfg_text(consts, invariants=(), properties=(), spec="Spec", constraint=None, base=None):
+    base = BASE if base is None else base
+    c = dict(base)
     c.update(consts)
     lines = ["SPECIFICATION %s" % spec, "CONSTANTS"]
-    for k in BASE:
+    for k in base:
         lines.append("  %s = %s" % (k, tla(c[k])))
     lines.append("CHECK_DEADLOCK FALSE")
     if invariants:
@@ -65,8 +73,9 @@ PROPS = {
         "invariants": ["Inv_C02a", "Inv_C02b", "Inv_C02c"], "actprops": [], "preds": ["C02a", "C02b", "C02c"],
         "configs": {
             "quick": [
-                ("m1", C(InitMax=1, Budget=4, GetModes=["nb", "bl", "timed"], AllowTake=True, AllowPanic=True), True),
-                ("m2", C(InitMax=2, Budget=3, NPre=1, NPc=1, AsyncPc=[1], AllowTake=True, AllowPanic=True, AllowRetain=True), True),
+                ("m1", C(InitMax=1, Budget=4, GetModes=["nb", "bl"], AllowTake=True, AllowPanic=True), True),
+                ("timed", C(InitMax=1, Budget=3, GetModes=["timed", "nb"], AllowFail=False), True),
+                ("m2", C(InitMax=2, Budget=3, NPre=1, NPc=1, AsyncPc=[1], AllowTake=True, AllowRetain=True), True),
             ],
             "thorough": [
                 ("m1", C(InitMax=1, Budget=5, GetModes=["nb", "bl", "timed"], AllowTake=True, AllowPanic=True, NPost=1, AsyncPost=[1]), True),
@@ -92,7 +101,7 @@ PROPS = {
         "invariants": ["Inv_C04a", "Inv_C09b"], "actprops": [], "preds": ["C04a", "C04b", "C04c"],
         "configs": {
             "quick": [
-                ("sync", C(InitMax=2, Budget=4, NPre=1, NPost=1, NPc=1, ThreadLevel=False, AllowCancel=False, CreateTO="finite", RecycleTO="finite"), True),
+                ("sync", C(Tasks=["t1"], InitMax=2, Budget=5, NPre=1, NPost=1, NPc=1, ThreadLevel=False, CreateTO="finite", RecycleTO="finite"), True),
                 ("async2", C(InitMax=1, Budget=3, NPre=2, AsyncPre=[2], NPost=2, AsyncPost=[1], NPc=2, AsyncPc=[2], ThreadLevel=False, Lifo=True), True),
             ],
             "thorough": [
@@ -133,8 +142,9 @@ PROPS = {
         "invariants": ["Inv_C13"], "actprops": ["Act_C08b"], "preds": ["C08a", "C08b", "C08c"],
         "configs": {
             "quick": [
-                ("fifo", C(InitMax=3, MaxObjs=4, Budget=6, ThreadLevel=False, AllowRetain=True, AllowSuspend=False, AllowCancel=False, GetModes=["nb"]), True),
-                ("lifo", C(InitMax=3, MaxObjs=4, Budget=6, ThreadLevel=False, AllowRetain=True, AllowSuspend=False, AllowCancel=False, GetModes=["nb"], Lifo=True), True),
+                ("fifo", C(Tasks=["t1"], InitMax=3, MaxObjs=4, Budget=7, ThreadLevel=False, AllowRetain=True, AllowSuspend=False, AllowCancel=False, GetModes=["nb"]), True),
+                ("lifo", C(Tasks=["t1"], InitMax=3, MaxObjs=4, Budget=7, ThreadLevel=False, AllowRetain=True, AllowSuspend=False, AllowCancel=False, GetModes=["nb"], Lifo=True), True),
+                ("two", C(InitMax=3, MaxObjs=3, Budget=5, ThreadLevel=False, AllowRetain=True, AllowSuspend=False, AllowCancel=False, AllowFail=False, GetModes=["nb"]), True),
             ],
             "thorough": [
                 ("fifo", C(InitMax=3, MaxObjs=4, Budget=7, ThreadLevel=False, AllowRetain=True, AllowSuspend=False, AllowCancel=False, GetModes=["nb"], ResizeTargets=[2]), True),
@@ -162,7 +172,7 @@ PROPS = {
         "configs": {
             "quick": [
                 ("m1", C(InitMax=1, Budget=4, AllowTake=True, AllowRetain=True), True),
-                ("rsz", C(InitMax=2, Budget=4, ResizeTargets=[1, 3], AllowClose=True, AllowSuspend=False, AllowCancel=False), True),
+                ("rsz", C(InitMax=2, Budget=3, ResizeTargets=[1, 3], AllowClose=True, AllowSuspend=False, AllowCancel=False), True),
             ],
             "thorough": [
                 ("m1", C(InitMax=1, Budget=5, AllowTake=True, AllowRetain=True, AllowPanic=True), True),
@@ -174,7 +184,7 @@ PROPS = {
         "invariants": ["Inv_C13"], "actprops": [], "preds": ["C13a", "C13b", "C13c"],
         "configs": {
             "quick": [
-                ("hooks", C(InitMax=2, Budget=5, NPre=1, NPost=1, NPc=1, ThreadLevel=False, AllowSuspend=False, AllowCancel=False, AllowRetain=True), True),
+                ("hooks", C(Tasks=["t1"], InitMax=2, Budget=6, NPre=1, NPost=1, NPc=1, ThreadLevel=False, AllowRetain=True), True),
                 ("thread", C(InitMax=1, Budget=4, NPost=1, AsyncPost=[1]), True),
             ],
             "thorough": [
@@ -182,5 +192,41 @@ PROPS = {
                 ("thread", C(InitMax=2, Budget=4, NPost=1, AsyncPost=[1], NPre=1), True),
             ],
         },
+    },
+}
+
+PROPS["C05"] = {
+    "kind": "unmanaged",
+    "invariants": ["Inv_C05_places", "Inv_C05_nodrop", "Inv_C05_max", "Inv_C05_full", "Inv_C05_getters", "Inv_C05_status"],
+    "actprops": ["Act_C05_tryadd"],
+    "preds": ["U05a", "U05b", "U05c", "U05d", "U05e", "U05f", "U05g"],
+    "configs": {
+        "quick": [
+            ("new", C(MaxSize=2, NObjs=3, Budget=4, GetModes=["try", "bl"]), True),
+            ("from", C(MaxSize=2, Preload=2, NObjs=3, Budget=4, HasRuntime=False, GetModes=["try", "bl"]), True),
+            ("zero", C(MaxSize=0, NObjs=1, Budget=3), True),
+        ],
+        "thorough": [
+            ("new", C(MaxSize=2, NObjs=3, Budget=6, GetModes=["try", "bl", "timed"]), True),
+            ("from", C(MaxSize=2, Preload=2, NObjs=3, Budget=5, HasRuntime=False, GetModes=["try", "bl"]), True),
+            ("t3", C(Tasks=["t1", "t2", "t3"], MaxSize=2, NObjs=3, Budget=5), False),
+        ],
+    },
+}
+PROPS["C12"] = {
+    "kind": "unmanaged",
+    "invariants": ["Inv_C12_nounderflow", "Inv_C12_final", "Inv_C12_late", "Inv_C05_places"],
+    "actprops": ["Act_C12_closed"],
+    "preds": ["U12a", "U12b", "U12c", "U12d", "U12e", "U12f"],
+    "configs": {
+        "quick": [
+            ("close", C(MaxSize=2, Preload=0, NObjs=2, Budget=4, AllowClose=True, GetModes=["try", "bl"]), True),
+            ("closefrom", C(MaxSize=1, Preload=1, NObjs=2, Budget=4, AllowClose=True, HasRuntime=False, GetModes=["try", "bl", "timed"], AllowDropPool=True), True),
+        ],
+        "thorough": [
+            ("close", C(MaxSize=2, Preload=0, NObjs=3, Budget=5, AllowClose=True, GetModes=["try", "bl", "timed"]), True),
+            ("closefrom", C(MaxSize=2, Preload=2, NObjs=3, Budget=5, AllowClose=True, HasRuntime=False, GetModes=["try", "bl"], AllowDropPool=True), True),
+            ("t3", C(Tasks=["t1", "t2", "t3"], MaxSize=1, Preload=1, NObjs=2, Budget=5, AllowClose=True, HasRuntime=False), False),
+        ],
     },
 }
